@@ -107,8 +107,8 @@ func writeEvidence(prop, tier string, seed uint64, a *agg, bt *builtTree, lcs []
 		"build_seconds":                      bt.buildS,
 		"tree_digest":                        treeDigest(),
 		"sync_pool_references_rewritten":     bt.rw.Rewritten,
-		"real_code":                          []string{"every line of pipelined.dev/signal from /repo's working tree (only the identifier sync.Pool is re-pointed to the stub)", "the Go race runtime (race lanes)", "Go runtime allocator and goroutines (tasks are real goroutines, released one at a time)"},
-		"stubbed":                            []string{"sync.Pool -> simrt.Pool: executable contract with seeded pick policy and putdrop/miss/gc faults (lane real-sync.Pool delegates to the real pool)", "goroutine scheduling order: seeded cooperative scheduler, switch points before/after every library call and at inner points before every library statement, stall faults", "garbage collection of pooled objects: seeded two-stage gc event; finalizers (if a modified library registers any) run as a task at that event", "blocking operations, goroutines, clock and timers a modified library may use: cooperative / simulated (inert on the pinned tree)"},
+		"real_code":                          []string{"every line of pipelined.dev/signal from /repo's working tree (re-pointed: sync.Pool to the stub; in a modified tree also sync.Map, blocking operations, timers, finalizers, map ranges, selects - see stubbed)", "the Go race runtime (race lanes)", "Go runtime allocator and goroutines (tasks are real goroutines, released one at a time)"},
+		"stubbed":                            []string{"sync.Pool -> simrt.Pool: executable contract with seeded pick policy and putdrop/miss/gc faults (lane real-sync.Pool delegates to the real pool)", "goroutine scheduling order: seeded cooperative scheduler, switch points before/after every library call and at inner points before every library statement, stall faults", "garbage collection of pooled objects: seeded two-stage gc event; finalizers (if a modified library registers any) run as a task at that event", "blocking operations, goroutines, clock and timers a modified library may use: cooperative / simulated (inert on the pinned tree)", "random choices of the Go runtime inside a modified library: map iteration order, select among ready cases, sync.Map (Range order), math/rand, processor count - drawn from the schedule tape (inert on the pinned tree; counters library_map_ranges_ordered, library_selects_ordered, library_random_draws)"},
 		"technique":                          propText[prop].technique,
 		"exhaustive":                         false,
 	}
